@@ -242,6 +242,19 @@ struct Rx {
 }
 
 impl ReadHalf {
+    /// A segment left the receive queue. Anything the host had to park in its
+    /// reorder buffer because the queue was full (in particular a FIN that
+    /// arrived behind `tcp_capacity` unread data segments) can be queued now;
+    /// without this it would only move on the next arrival, which for a FIN
+    /// never comes.
+    fn slot_freed(&self) {
+        World::current_if_set(|world| {
+            if world.current.is_some() {
+                world.current_host_mut().tcp.redrain(*self.pair);
+            }
+        });
+    }
+
     fn poll_read_priv(&mut self, cx: &mut Context<'_>, buf: &mut ReadBuf) -> Poll<Result<()>> {
         if self.is_closed || buf.capacity() == 0 {
             return Poll::Ready(Ok(()));
@@ -256,6 +269,7 @@ impl ReadHalf {
         match ready!(self.rx.recv.poll_recv(cx)) {
             Some(seg) => {
                 tracing::trace!(target: TRACING_TARGET, src = ?self.pair.remote, dst = ?self.pair.local, protocol = %seg, "Recv");
+                self.slot_freed();
 
                 match seg {
                     SequencedSegment::Data(bytes) => {
@@ -313,6 +327,7 @@ impl ReadHalf {
         match ready!(self.rx.recv.poll_recv(cx)) {
             Some(seg) => {
                 tracing::trace!(target: TRACING_TARGET, src = ?self.pair.remote, dst = ?self.pair.local, protocol = %seg, "Peek");
+                self.slot_freed();
 
                 match seg {
                     SequencedSegment::Data(bytes) => {
